@@ -541,6 +541,65 @@ def subclassed_builtin_types(hist):
     return out
 
 
+def refusal_alone(y: bytes):
+    """how a fresh, unregistered server in a FRESH interpreter refuses the bytes y: (exception class, hex of the notification attached) or None"""
+    code = (
+        "import sys, json; sys.path.insert(0, %r); import codec as C\n"
+        "from codec import sansldap\n"
+        "s = sansldap.LDAPServer()\n"
+        "try:\n"
+        "    s.receive(bytes.fromhex(json.load(sys.stdin)))\n"
+        "    out = ['accepted', None]\n"
+        "except sansldap.ProtocolError as e:\n"
+        "    out = ['ProtocolError', None if e.response is None else bytes(e.response).hex()]\n"
+        "except BaseException as e:\n"
+        "    out = [type(e).__name__, None]\n"
+        "json.dump(out, sys.stdout)\n" % HERE
+    )
+    p = subprocess.run([sys.executable, "-c", code], input=json.dumps(y.hex()), capture_output=True, text=True, timeout=120)
+    return json.loads(p.stdout) if p.returncode == 0 else None
+
+
+def registrations_do_not_show_elsewhere(hist):
+    """after OTHER sessions registered custom types, an unregistered session refuses their bytes exactly as it would alone in a fresh interpreter:
+    same exception class and the SAME notification bytes (a registration must not be observable from another session, not even in the diagnostic
+    text the refusing server sends to its peer)"""
+    import ber as B
+
+    def tlv(tag, content):
+        return bytes([tag]) + B.enc_len(len(content)) + content
+
+    def search(filt):
+        return tlv(0x30, tlv(2, b"\1") + tlv(0x63, tlv(4, b"") + tlv(0x0A, b"\0") + tlv(0x0A, b"\0") + tlv(2, b"\0") + tlv(2, b"\0") + tlv(1, b"\0") + filt + tlv(0x30, b"")))
+
+    custom_f = tlv(0x9F, b"")[:1] + bytes([CT.CUSTOM_FILTER_ID]) + B.enc_len(1) + b"x" if CT.CUSTOM_FILTER_ID >= 31 else tlv(0x80 | CT.CUSTOM_FILTER_ID, b"x")
+    custom_c = (bytes([0x9F, CT.CUSTOM_CRED_ID]) if CT.CUSTOM_CRED_ID >= 31 else bytes([0x80 | CT.CUSTOM_CRED_ID])) + B.enc_len(1) + b"x"
+    probes = {"custom filter": search(custom_f), "custom filter nested": search(tlv(0xA0, tlv(0x87, b"cn") + tlv(0xA2, custom_f))),
+              "custom credential": tlv(0x30, tlv(2, b"\1") + tlv(0x60, tlv(2, b"\3") + tlv(4, b"") + custom_c))}
+    out = []
+    alone = {k: refusal_alone(v) for k, v in probes.items()}
+    regs = [sansldap.LDAPServer(), sansldap.LDAPClient()]
+    for s_ in regs:
+        s_.register_filter(CT.CustomFilter)
+        s_.register_auth_credential(CT.CustomAuth)
+        s_.register_control(CT.CustomControl)
+    for k, data in probes.items():
+        hist["registrations-elsewhere:probes"] += 1
+        b = sansldap.LDAPServer()
+        try:
+            b.receive(data)
+            got = ["accepted", None]
+        except sansldap.ProtocolError as e:
+            got = ["ProtocolError", None if e.response is None else bytes(e.response).hex()]
+        except BaseException as e:  # noqa: BLE001
+            got = [type(e).__name__, None]
+        if alone[k] is not None and got != alone[k]:
+            out.append({"key": None, "what": "an unregistered session refuses bytes of a custom type differently once ANOTHER session has registered that type: "
+                        "exception class or notification bytes differ from the same session alone in a fresh interpreter", "probe": k, "bytes": data.hex(),
+                        "with_other_sessions_registered": got, "alone_in_fresh_interpreter": alone[k]})
+    return out
+
+
 def shared_inputs(ctx, hist):
     """two sessions are handed the SAME input object (a bytearray holding the common first bytes of their next messages): neither may keep it —
     what one session receives afterwards must not reach the other"""
@@ -607,6 +666,7 @@ def run(ctx):
     violations += shared_inputs(ctx, hist)
     violations += after_failures(ctx, hist)
     violations += subclassed_builtin_types(hist)
+    violations += registrations_do_not_show_elsewhere(hist)
     import p_recv
     violations += p_recv.failed_pack_histories(ctx.rng, ctx.scale(150, 3000), hist)
     distinct = set()
